@@ -321,7 +321,29 @@ var c13AfterText = &vlib.Check{
 	},
 }
 
-func init() { vlib.Register(c13BFS, c13Core, c13Random, c13AfterText) }
+// c13TextNotKeyword: the converse - after a Description text a line that begins with a keyword (or response code)
+// followed by one more word character is a line of the text: no directive starts there and nothing is refused.
+var c13TextNotKeyword = &vlib.Check{
+	Prop: "C13", Name: "after-description-lookalikes",
+	Oracle: func(c *vlib.Case) *vlib.Violation {
+		ctx, _ := c.Params["ctx"].(string)
+		word := string(c.Project.RootBytes())
+		r := kwScanWord(ctx, word)
+		if r.panicked != "" {
+			return vlib.V("c13:scanner-panic", "ctx=%q word=%q panic=%s", ctx, word, r.panicked)
+		}
+		if r.errIdx >= 0 || r.kwBegin == len(ctx) {
+			return vlib.V("c13:text-line-taken-for-a-directive", "after a Description text the line %q is a line of the text (no keyword ends after %q); keyword lexeme [%d,%d], error %d %q", word, strings.SplitN(word, " ", 2)[0], r.kwBegin, r.kwEnd, r.errIdx, r.errMsg)
+		}
+		return nil
+	},
+	Classify: func(c *vlib.Case) (bool, []string) { return true, []string{"lookalike-after-text"} },
+	SampleOf: func(c *vlib.Case) any {
+		return map[string]any{"ctx": c.Params["ctx"], "word": string(c.Project.RootBytes())}
+	},
+}
+
+func init() { vlib.Register(c13BFS, c13Core, c13Random, c13AfterText, c13TextNotKeyword) }
 
 func TestC13(t *testing.T) {
 	ev := vlib.Ev("C13")
@@ -450,6 +472,34 @@ func TestC13(t *testing.T) {
 				term := terms[i/(len(words)*len(ctxs))]
 				i++
 				return &vlib.Case{Project: vlib.SingleFile([]byte(w + term)), Params: map[string]any{"ctx": ctx}}
+			})
+		})
+	}
+	if vlib.Shard() == 2%vlib.Shards() {
+		t.Run("after-description-lookalikes", func(t *testing.T) {
+			var words []string
+			for _, k := range kwRef {
+				words = append(words, k)
+			}
+			for c := 100; c < 600; c += 7 {
+				words = append(words, fmt.Sprint(c))
+			}
+			ctxs := []string{"JSIGHT 0.3\nGET /a\n  Description\n    some text\n  ", "JSIGHT 0.3\nINFO\n  Description\n    line one\n\n    line two\n", "JSIGHT 0.3\r\nGET /a\r\n\tDescription\r\n\t\ttext\r\n\t"}
+			sufs := []string{"s", "x and more", "0", "_", "Z\n", "entifier of the cats", "s\n    more text"}
+			i := 0
+			total := len(words) * len(ctxs) * len(sufs)
+			c13TextNotKeyword.RunEnum(t, func() *vlib.Case {
+				for i < total {
+					w := words[i%len(words)]
+					ctx := ctxs[(i/len(words))%len(ctxs)]
+					suf := sufs[i/(len(words)*len(ctxs))]
+					i++
+					if kwIsKeyword(w+suf[:1]) || kwIsProperPrefix(w+suf[:1]) || kwIsCode(w+suf[:1]) {
+						continue // (one keyword is the prefix of another: "Method" + "s" is not one, "Tag" is not a keyword ...)
+					}
+					return &vlib.Case{Project: vlib.SingleFile([]byte(w + suf)), Params: map[string]any{"ctx": ctx}}
+				}
+				return nil
 			})
 		})
 	}
